@@ -127,28 +127,132 @@ let kind_name = function KBad -> "bad" | KRelInd -> "relind" | KGenCheck -> "gen
 let set_eq (a : tlit list) (b : tlit list) = List.sort_uniq compare a = List.sort_uniq compare b
 let frame_str = function FInit -> "0" | FFinite k -> string_of_int (int_of_nat k) | FInf -> "inf"
 
-(* None = the model reproduces the run; Some reason otherwise.  Second component: statistics. *)
-let replay_trace (evs : tev list) ~(gen_on : bool) ~(has_bads : bool) ~(impl : string) : string option * (int * int * int) =
+(* ---------------------------------------------------------------------------------------------
+   The oracle hypothesis, TESTED: the theorems about the concrete model assume that the solver answers
+   truthfully for the query the MODEL asks ([truthful] of Proofs/PdrImplProofs.v).  The replay above
+   takes the recorded answers on trust; a defect of pdr.rs outside the logged events (a wrong permanent
+   assertion, a wrong assumption literal, a wrong encoding of a frame) makes the real solver answer a
+   DIFFERENT query than the one the model has in mind.  For systems with few states every recorded
+   answer is therefore checked with the extracted [answer_ok] (theorem C10_pdr_answer_check_exact:
+   it decides [truthful]) over the explicit state-level semantics of Model/PdrSys.v (sys_bad0,
+   sys_step0, sys_trans, sys_bad; states = valuations of the state symbols).  *)
+type sem = {
+  n_states : int;
+  holds : tlit -> int -> bool;
+  state_of_cube : tlit list -> int option;
+  s_bad0 : int -> bool; s_step0 : int -> int -> bool; s_trans : int -> int -> bool; s_bad : int -> bool;
+}
+
+let sem_memo : (string, sem option) Hashtbl.t = Hashtbl.create 64
+(* bound on 2 * state bits + 2 * input bits (the cost of filling the transition matrix) *)
+let truth_bits_limit = ref 16
+
+let sem_of (key : string) (sy : sys) (cls : bool) : sem option =
+  match Hashtbl.find_opt sem_memo key with
+  | Some r -> r
+  | None ->
+      let r =
+        if not cls then None
+        else begin
+          let sb = int_of_n (sbits sy) in
+          let ib = int_of_n (sys_bits sy) - sb in
+          if 2 * sb + 2 * ib > !truth_bits_limit then None
+          else begin
+            let n = 1 lsl sb in
+            let sigs = state_sigs sy in
+            let cube_of (s : int) : tlit list =
+              let rho = Model.mk_env sy (n_of_int s) N0 in
+              List.concat_map (fun (nm, w) ->
+                  let wi = int_of_n w in
+                  let bits = bits_of_n wi (rho.rho_bv nm w) in
+                  List.init wi (fun b -> (ocamlstr nm, b, bits.[wi - 1 - b] = '1'))) sigs in
+            let cubes = Array.init n cube_of in
+            let tbls = Array.map (fun c -> let h = Hashtbl.create 16 in List.iter (fun l -> Hashtbl.replace h l ()) c; h) cubes in
+            let by_cube = Hashtbl.create n in
+            Array.iteri (fun s c -> Hashtbl.replace by_cube (List.sort compare c) s) cubes;
+            let memo1 f = let a = Array.make n None in
+              fun s -> (match a.(s) with Some b -> b | None -> let b = f (n_of_int s) in a.(s) <- Some b; b) in
+            let memo2 f = let a = Array.make (n * n) None in
+              fun s t -> (match a.(s * n + t) with Some b -> b | None -> let b = f (n_of_int s) (n_of_int t) in a.(s * n + t) <- Some b; b) in
+            Some { n_states = n;
+                   holds = (fun l s -> Hashtbl.mem tbls.(s) l);
+                   state_of_cube = (fun c -> Hashtbl.find_opt by_cube (List.sort_uniq compare c));
+                   s_bad0 = memo1 (sys_bad0 sy); s_step0 = memo2 (sys_step0 sy);
+                   s_trans = memo2 (sys_trans sy); s_bad = memo1 (sys_bad sy) }
+          end
+        end in
+      Hashtbl.replace sem_memo key r; r
+
+(* the first recorded answer that is not truthful for the model's query, and the number of answers checked *)
+let check_answers (sm : sem) (log : (tlit, tlit list, string) event list) : string option * int =
+  let states = List.init sm.n_states (fun s -> s) in
+  let ok q a = answer_ok sm.holds sm.s_bad0 sm.s_step0 sm.s_trans sm.s_bad states (fun a b -> a = b) q a in
+  let rec go i n = function
+    | [] -> (None, n)
+    | EvQuery (q, a) :: rest ->
+        let where = Printf.sprintf "query %d (%s, frame %s)" i (kind_name q.q_kind) (frame_str q.q_frame) in
+        (match a with
+         | ASat [] ->
+             (* the hook has no model for this call (fix_gen_cube's queries, pushing, the infinite frame):
+                sat must at least be possible *)
+             if List.exists (fun st -> ok q (ASat st)) states then go (i + 1) (n + 1) rest
+             else (Some (Printf.sprintf "untruthful-answer: %s answered sat, but the query the model of pdr.rs asks there has no model" where), n)
+         | ASat m ->
+             (match sm.state_of_cube m with
+              | None -> (Some (Printf.sprintf "untruthful-answer: %s: the model returned is not the cube of a state" where), n)
+              | Some st ->
+                  if ok q (ASat st) then go (i + 1) (n + 1) rest
+                  else (Some (Printf.sprintf "untruthful-answer: %s answered sat, but state %d is not a model of the query the model of pdr.rs asks there" where st), n))
+         | AUnsat core ->
+             if ok q (AUnsat core) then go (i + 1) (n + 1) rest
+             else (Some (Printf.sprintf "untruthful-answer: %s answered unsat with a core of %d literal(s), but the query the model of pdr.rs asks there (restricted to that core) has a model" where (List.length core)), n)
+         | AUnknown | AErr _ -> go (i + 1) n rest)
+    | _ :: rest -> go i n rest in
+  go 0 0 log
+
+(* None = the model reproduces the run; Some reason otherwise.  Second component: statistics.
+   [inject_err]: the real run was hit by an injected solver error (property C15): the recorded trace stops
+   before the failing call; the oracle answers [AErr] at the first query that was not recorded, the BMC
+   oracle fails too (the fault may have hit the fallback), and the model must stop with that error right
+   there, having produced exactly the recorded events. *)
+let replay_trace (evs : tev list) ~(gen_on : bool) ~(has_bads : bool) ~(impl : string) ~(inject_err : bool) ~(tail_unknown : bool) ~(sem : sem option)
+  : string option * (int * int * int * int) =
   let answers = Array.of_list (List.filter_map (function TQ (_, _, _, _, _, a) -> Some a | _ -> None) evs) in
   let exhausted = ref false in
-  let solve (n : nat) (_ : tlit query) : (tlit, tlit list) answer =
+  let solve (n : nat) (_ : tlit query) : (tlit, tlit list, string) answer =
     let i = int_of_nat n in
     if i < Array.length answers then
       (match answers.(i) with TSat m -> ASat m | TUnsat c -> AUnsat c | TUnknown -> AUnknown)
+    else if inject_err && i = Array.length answers then AErr "injected"
+    (* an injected `unknown` at one of fix_gen_cube's queries: pdr.rs returns before the hook logs the query *)
+    else if tail_unknown && i = Array.length answers then AUnknown
     else (exhausted := true; AUnknown) in
-  let bmc = if impl = "fail" then BmcFail () else BmcOther in
+  let bmc = if inject_err then BmcErr "injected" else if impl = "fail" then BmcFail () else BmcOther in
   let fuel = nat_of_int 5000 in
-  let r = pdr (fun a b -> a = b) (fun m -> m) solve gen_on has_bads bmc fuel fuel in
+  let r = pdr (fun a b -> a = b) (fun m -> m) solve (fun _ -> None) O gen_on has_bads bmc fuel fuel in
   let nq = Array.length answers in
   let nb = List.length (List.filter (function TBlock _ -> true | _ -> false) evs) in
   let nf = List.length (List.filter (function TAdd _ -> true | _ -> false) evs) in
-  let stats = (nq, nb, nf) in
-  match r with
-  | Err e -> (Some (Printf.sprintf "model-err:%s" (match e with EUnknown k -> "unknown-" ^ kind_name k | EOrigCube -> "orig-cube")), stats)
-  | Panic n -> (Some (Printf.sprintf "model-panic:%d" (int_of_nat n)), stats)
-  | Fuel -> (Some "model-out-of-fuel", stats)
-  | Ok (v, st) ->
-      let mlog = List.rev st.p_log in
+  let stats = (nq, nb, nf, 0) in
+  let is_err_event = function
+    | EvQuery (_, AErr _) | EvCmdFail (_, _) | EvBmcErr _ -> true
+    | _ -> false in
+  (* the events of the model's run (oldest first) and its outcome *)
+  let outcome =
+    match r with
+    | Ok (v, st) -> Some (List.rev st.p_log, (match v with VSuccess -> "success" | VFail _ -> "fail" | VUnknown -> "unknown"))
+    | Err (e, log) ->
+        let l = List.rev log in
+        let l = List.filter (fun ev -> not (is_err_event ev)) l in
+        (* pdr.rs returns from init_steps_into on `unknown` before the hook logs that query *)
+        let l = match e with
+          | EUnknown (KGenCheck | KGenFix) -> (match List.rev l with EvQuery (_, AUnknown) :: r -> List.rev r | _ -> l)
+          | _ -> l in
+        Some (l, "err")
+    | Panic _ | Fuel -> None in
+  match outcome with
+  | None -> ((match r with Panic n -> Some (Printf.sprintf "model-panic:%d" (int_of_nat n)) | _ -> Some "model-out-of-fuel"), stats)
+  | Some (mlog, mv) ->
       let rec cmp i ml tl =
         match ml, tl with
         | [], [] -> None
@@ -175,9 +279,10 @@ let replay_trace (evs : tev list) ~(gen_on : bool) ~(has_bads : bool) ~(impl : s
        | Some m -> (Some m, stats)
        | None ->
            if !exhausted then (Some "the model asked more queries than the real run", stats)
-           else
-             let mv = match v with VSuccess -> "success" | VFail _ -> "fail" | VUnknown -> "unknown" in
-             if mv <> impl then (Some (Printf.sprintf "verdict %s vs %s" mv impl), stats) else (None, stats))
+           else if mv <> impl then (Some (Printf.sprintf "verdict %s vs %s" mv impl), stats)
+           else (match sem with
+                 | None -> (None, stats)
+                 | Some sm -> let (r, n) = check_answers sm mlog in (r, (nq, nb, nf, n))))
 
 let handle (x : Sexp.t) : string =
   let id, fs = case_fields x in
@@ -204,6 +309,10 @@ let handle (x : Sexp.t) : string =
       let vs = verdict_str v in
       let clean s = String.map (fun c -> if c = '\n' || c = '\t' || c = '\r' then ' ' else c) s in
       let impl_name = (match impl with Sexp.Atom a -> a | Sexp.List (Sexp.Atom a :: _) -> a | _ -> "?") in
+      (* fault injection (property C15 on the real pdr): (fault unknown|error N) (faulthit 0|1) *)
+      let fault = match Sexp.field_opt "fault" fs with Some (k :: _) -> Some (Sexp.atom k) | _ -> None in
+      let fault_hit = (match Sexp.field_opt "faulthit" fs with Some [h] -> Sexp.atom h = "1" | _ -> false) in
+      let inject_err = fault = Some "error" && fault_hit in
       let res status key detail =
         (* the state-level correspondence is evaluated on the runs whose verdict is right *)
         let (status, key, detail) =
@@ -211,16 +320,28 @@ let handle (x : Sexp.t) : string =
           else match Sexp.field_opt "trace" fs with
             | Some (Sexp.Atom "on" :: evs) ->
                 let gen_on = Sexp.atom (Sexp.field1 "gen" fs) = "on" in
-                (match replay_trace (List.map parse_tev evs) ~gen_on ~has_bads:(sy.s_bads <> []) ~impl:impl_name with
-                 | (None, (nq, nb, nf)) -> ("ok", key, Printf.sprintf "%s trace=ok queries=%d blocks=%d frames=%d" detail nq nb nf)
+                (match replay_trace (List.map parse_tev evs) ~gen_on ~has_bads:(sy.s_bads <> []) ~impl:impl_name ~inject_err ~tail_unknown:(fault = Some "unknown" && fault_hit && impl_name = "err")
+                         ~sem:(sem_of (Sexp.to_string sys_sx) sy cls) with
+                 | (None, (nq, nb, nf, na)) -> ("ok", key, Printf.sprintf "%s trace=ok queries=%d blocks=%d frames=%d answers_checked=%d" detail nq nb nf na)
                  | (Some m, _) ->
                      let cls = if String.length m >= 5 && String.sub m 0 5 = "event" then "event-mismatch"
+                       else if String.length m >= 9 && String.sub m 0 9 = "the model" then "extra-queries"
                        else if String.length m >= 7 && String.sub m 0 7 = "verdict" then "verdict-mismatch"
                        else List.hd (String.split_on_char ':' (List.hd (String.split_on_char ' ' m))) in
                      ("diff", "pdr-model:" ^ cls, "concrete model vs real run: " ^ m))
             | _ -> (status, key, detail ^ " trace=off") in
         Registry.result ~id ~status ~key:(clean key) ~detail:(clean (Printf.sprintf "spec=%s impl=%s cfg=%s %s" vs impl_name cfg detail)) () in
       (match impl, v with
+       (* ---- runs with an injected solver fault (C15 on the real pdr) *)
+       | Sexp.List (Sexp.Atom "err" :: Sexp.Str msg :: _), _ when inject_err && contains msg "injected" ->
+           res "ok" "fault:error-propagated" "the injected solver error is the result"
+       | (Sexp.Atom ("success" | "unknown") | Sexp.List (Sexp.Atom "fail" :: _)), _ when inject_err ->
+           res "fail" "pdr:verdict-after-injected-error" "a solver call returned an error and pdr still produced a verdict"
+       | Sexp.List (Sexp.Atom "err" :: Sexp.Str msg :: _), _ when fault = Some "unknown" && fault_hit && contains msg "unknown query" ->
+           res "ok" "fault:unknown-is-error" "the injected unknown answer ends the run with an error"
+       | Sexp.Atom "unknown", _ when fault = Some "unknown" && fault_hit ->
+           res "ok" "fault:unknown-verdict" "the injected unknown answer gives an Unknown verdict"
+       (* ---- *)
        | Sexp.Atom "success", Safe -> res "ok" "safe" ""
        | Sexp.Atom "success", Unsafe _ -> res "fail" ("pdr:success-on-unsafe" ^ qual) "PDR answered success although a bad state is reachable"
        | Sexp.List [Sexp.Atom "fail"; Sexp.List (Sexp.Atom "wit" :: wit)], Safe ->
